@@ -161,19 +161,19 @@ ALL = [f"C{n:02d}" for n in range(1, 21)]
 
 
 EXTRA = {
-    "C01": " Also: 15 typed helpers, falsy message ids, calls with a progress callback (token taken from the wire), and a write stream whose transport stalls past the timeout. A same-id server request shaped like progress; a second call on the same streams afterwards. The read stream closed by the peer while the request is pending (must fail, never return); calls carrying a never-fired token.",
-    "C03": " Also run through the real stdio_client_with_initialize on a FakeProcess (batching mode probed behaviourally), with back-pressure on the write stream, a write channel that breaks after the request, an unrelated concurrent handshake in the same process, and reconnect histories over one StdioClient object. MCPClient.initialize retried after a cancelled first attempt. An error answer that also carries a good-looking result.",
+    "C01": " Also: 15 typed helpers, falsy message ids, calls with a progress callback (token taken from the wire), and a write stream whose transport stalls past the timeout. A same-id server request shaped like progress; a second call on the same streams afterwards. The read stream closed by the peer while the request is pending (must fail, never return); calls carrying a never-fired token. The caller changes its params dict after the call is over: what was written must not change with it.",
+    "C03": " Also run through the real stdio_client_with_initialize on a FakeProcess (batching mode probed behaviourally), with back-pressure on the write stream, a write channel that breaks after the request, an unrelated concurrent handshake in the same process, and reconnect histories over one StdioClient object. MCPClient.initialize retried after a cancelled first attempt. An error answer that also carries a good-looking result. A tracked client arriving at a version label that is no date must be in the mode a processor created for that label has.",
     "C04": " Responses may sit in an outbound queue while other handshakes are handled (aliasing between answers is visible). A client that retries after its own timeout is judged end to end (client and server must agree). A client that builds its list from the library's accessor and edits it; the oracle compares with the supported list as published at import, not with the live object. Calendar-impossible version strings; the tracking wrapper with the first request lost on the way. A server whose ServerInfo carries a title.",
     "C05": " Also: bursts of > 100 lines in one read, legacy per-request streams (open or abandoned), the child exiting with unread output, and an earlier session over the same client object that ended mid-line. Lines of 1-16 MiB; a consumer that closes the main read stream and only listens to notifications while > 100 more messages arrive. A pure-emitter child that never reads its stdin; a child that closes its own stdin but keeps talking while the client writes; ids/methods/keys with leading or trailing white space or separators; an unterminated stderr write. Per-request streams left pending by an earlier session over the same client object.",
-    "C06": " Also: frames over 64 KiB, server batches rejected concurrently with the writer (two tasks writing to stdin), values the fast JSON backend refuses (stdlib fallback path). Lone surrogates (raw and escaped); a child that closes its stdout but keeps reading. A typed message changed in place and sent again after its first copy has left the queue. Messages queued through send_json(); an unread inbound flood; long runs of unserialisable messages; a host that pretty-printed through the library's JSON layer first.",
-    "C08": " Handler faults include text-less and unprintable exceptions. A second MCPServer object built in the same process must not change the first one's dispatch. Dispatch on sessions created by an earlier initialize with a non-object clientInfo. A dispatch task cancelled mid-handler while other clients ask for the same thing (a stuck dispatch counts as an unanswered request); lone surrogates in method / tool / URI / exception text. Handler exceptions that happen to carry a code attribute (int, str, None).",
+    "C06": " Also: frames over 64 KiB, server batches rejected concurrently with the writer (two tasks writing to stdin), values the fast JSON backend refuses (stdlib fallback path). Lone surrogates (raw and escaped); a child that closes its stdout but keeps reading. A typed message changed in place and sent again after its first copy has left the queue. Messages queued through send_json(); an unread inbound flood; long runs of unserialisable messages; a host that pretty-printed through the library's JSON layer first. Typed messages built directly, relying on the model's default for jsonrpc.",
+    "C08": " Handler faults include text-less and unprintable exceptions. A second MCPServer object built in the same process must not change the first one's dispatch. Dispatch on sessions created by an earlier initialize with a non-object clientInfo. A dispatch task cancelled mid-handler while other clients ask for the same thing (a stuck dispatch counts as an unanswered request); lone surrogates in method / tool / URI / exception text. Handler exceptions that happen to carry a code attribute (int, str, None). A tool result that contains itself (with a real-time watchdog for a step that never yields).",
     "C11": " SSE encodings include data-less typed events and raw U+2028/2029/0085 in payloads. 1..3 request slots and sequences up to 12 messages (slot leaks on early returns). A mis-addressed response carrying a later request's id; more than 100 messages in one answer. The fake wire honours a disabled read/connect timeout; wrong-charset JSON bodies. Content types with a charset parameter.",
     "C12": " Also: server requests reusing a client id, the response event followed by a failing POST, and a systematic product establishment x exit path x instant x answer mode. Census of tasks and in-flight POSTs at the instant the context is left; bodies leaving with a request in flight; the event stream dead before exit; a greeting coalesced with the endpoint announcement. Falsy request ids (0, \"\"). A caller-supplied session id; a second SSE connection opened and closed in the same process meanwhile.",
     "C13": " Also: counter-proposal handshakes, legacy per-request streams, a saturated outgoing queue with a > 64 KiB frame in flight when the batch is rejected. A notification side stream nobody reads, filled past its 100 slots. Through the StdioTransport wrapper, re-entered after an earlier connection that negotiated another version. Members whose id is neither string nor integer; a batch sent the moment the server has read notifications/initialized. Invalid members the optional fast encoder cannot re-serialise (300 levels deep, lone surrogate).",
-    "C14": " Also: params that already carry a progress token, the token found on the wire, and one token shared by a second request. The outgoing side stalling while the cancellation is noticed; callbacks failing with TimeoutError / OSError / the library's CancelledError. Foreign listeners registered on the token beforehand, some failing when it fires. Falsy caller-supplied ids; the outgoing side going away for good before the cancellation is noticed. Progress totals of 0 / 0.0 told apart from absent.",
-    "C15": " Also through MCPClient/connect_to_server over the Transport classes; > 100 notifications per session; event-before-202 on the SSE carrier; slow notification transit with a lifecycle-enforcing server; untyped SSE events behind data-less keep-alives. A server greeting at connection time (stdio vs legacy SSE, same chunk as the announcement); a session-keeping Streamable HTTP server assigning the id only with the InitializeResult. Server-only texts with a lone-surrogate escape or endpoint-looking paths, \\u-escaped JSON, untyped events on the legacy SSE carrier. Error replies with code 0 or an empty message; results carrying an explicit null error member. A client that pipelines 30-40 requests and starts reading late (> 100 messages pile up).",
-    "C16": " Entry points include stdio_client_with_initialize; several conversations over one StdioClient object. A child bursting > 100 messages and exiting by itself; the child's state at the very instant of exit when it dies within the grace periods; floods of 8-30 KiB lines up to what pipe + reader buffers hold, with the open-descriptor clause judged on the transport's EOF/close model. A backlog of > 100 requests parked behind the full outgoing queue when the child dies. A 190 x 2 KiB burst before the child's own exit; large messages queued at exit; busy-waiting exits recognised as hangs. A retry on the same StdioTransport object after a failed start.",
-    "C18": " Runs on raw streams and on the pair returned by stdio_client() over a FakeProcess; ids include int/digit-string twins and falsy ids. Callers with (never fired) tokens; an in-phase, in-order regime that must be loss-free (own signature, not covered by F-C18-1); all answers in one flush with pipe reads coalescing several writes. An answer behind a burst of > 100 notifications in the same write; the pair handed out by sse_client() as a third carrier for the in-phase regime. An answer inside a batch behind a notification; the per-request-stream API as a regime of its own (any order, timing, noise, optional id reuse, dozens of abandoned registrations); id-less error messages as noise. A sibling connection in the same process registering the same request ids.",
+    "C14": " Also: params that already carry a progress token, the token found on the wire, and one token shared by a second request. The outgoing side stalling while the cancellation is noticed; callbacks failing with TimeoutError / OSError / the library's CancelledError. Foreign listeners registered on the token beforehand, some failing when it fires. Falsy caller-supplied ids; the outgoing side going away for good before the cancellation is noticed. Progress totals of 0 / 0.0 told apart from absent. Progress callbacks that are callable objects or wrappers returning the coroutine.",
+    "C15": " Also through MCPClient/connect_to_server over the Transport classes; > 100 notifications per session; event-before-202 on the SSE carrier; slow notification transit with a lifecycle-enforcing server; untyped SSE events behind data-less keep-alives. A server greeting at connection time (stdio vs legacy SSE, same chunk as the announcement); a session-keeping Streamable HTTP server assigning the id only with the InitializeResult. Server-only texts with a lone-surrogate escape or endpoint-looking paths, \\u-escaped JSON, untyped events on the legacy SSE carrier. Error replies with code 0 or an empty message; results carrying an explicit null error member. A client that pipelines 30-40 requests and starts reading late (> 100 messages pile up). A parameters object reused for a second connection after a server restart.",
+    "C16": " Entry points include stdio_client_with_initialize; several conversations over one StdioClient object. A child bursting > 100 messages and exiting by itself; the child's state at the very instant of exit when it dies within the grace periods; floods of 8-30 KiB lines up to what pipe + reader buffers hold, with the open-descriptor clause judged on the transport's EOF/close model. A backlog of > 100 requests parked behind the full outgoing queue when the child dies. A 190 x 2 KiB burst before the child's own exit; large messages queued at exit; busy-waiting exits recognised as hangs. A retry on the same StdioTransport object after a failed start. The real descriptor count of the process around every run; a server environment that asks for quiet logging.",
+    "C18": " Runs on raw streams and on the pair returned by stdio_client() over a FakeProcess; ids include int/digit-string twins and falsy ids. Callers with (never fired) tokens; an in-phase, in-order regime that must be loss-free (own signature, not covered by F-C18-1); all answers in one flush with pipe reads coalescing several writes. An answer behind a burst of > 100 notifications in the same write; the pair handed out by sse_client() as a third carrier for the in-phase regime. An answer inside a batch behind a notification; the per-request-stream API as a regime of its own (any order, timing, noise, optional id reuse, dozens of abandoned registrations); id-less error messages as noise. A sibling connection in the same process registering the same request ids. An earlier, never answered attempt under the same id.",
     "C19": " Initialize is also sent with unsupported/malformed versions and with a session id. The process-wide random module re-seeded between creates. Sessions created by an initialize whose clientInfo is no object; any store operation that raises is a violation.",
     "C20": " Also: repeat loads of one unchanged file, unknown names at any position, the default inherited environment compared with the host environment, which changes between launches. The stderr disposition of every spawn with a child that writes more than a pipe holds before answering; configured quiet log levels. The CLI main() with --config, run from a directory holding a decoy default configuration. Arguments/env values with leading or trailing white space; invalid JSON whose error sits at end of input; a busy event loop at the handshake's poll edge (SimLoop.burn); hosts running with DEBUG logging. The fake open_process has anyio's defaults (pipes unless told otherwise), so an omitted stderr= is an unread pipe.",
 }
